@@ -100,6 +100,12 @@ Definition ar_oracle (genv : ar_env) (inv : list ar_host) (rules wrules : list a
     else if negb (ar_same_res wrapped (ar_apply genv inv wrules)) then 4
     else if ar_same_res plain wrapped then 0 else 5.
 
+(* ---- the order oracle: [base] = what existed after the load in script order, [other] = after loading the same
+   configuration with the rules (and inventory objects) in another file order / with another number of worker
+   threads.  6 = the created set depends on the order                                              (C16 violated) *)
+Definition ar_order_oracle (base other : option (list ar_obj)) : Z :=
+  if ar_same_res base other then 0 else 6.
+
 (* which premise fails (for classification): 2 `for` error on an unindexed target *)
 Definition ar_premise_class (genv : ar_env) (inv : list ar_host) (rules : list ar_rule) : Z :=
   if ar_premises genv inv rules then 0 else 2.
